@@ -174,21 +174,23 @@ Section Inv.
   Definition kurt_textbook (d : list Q) : Q :=
     (raw4 d - 4 * raw3 d * mean d + 6 * raw2 d * sq (mean d) - 3 * fourth (mean d)) / sq (Qmaxb 1 (raw2 d - sq (mean d))).
 
+  (* where no path was simulated numpy reports nan: every clause is stated for 0 < N_l only *)
   Definition results_ok (l : nat) (v : lev) : Prop :=
     let R := samples_of l (lN v) in
     let D := map (fun r : row => fst r - snd r) R in
     let F := map (fst (B:=Q)) R in
     lrows v = R /\
-    res_ml v == Qabs (mean D) /\ res_mean_level v == mean F /\ res_cl v == lcost v / qnat (lN v) /\
     ((0 < lN v)%nat ->
+       res_ml v == Qabs (mean D) /\ res_mean_level v == mean F /\
        res_vl v == Qmaxb 0 (raw2 D - sq (mean D)) /\
        res_var_level v == raw2 F - sq (mean F) /\
        res_kurtosis v == kurt_textbook D).
 
   Lemma done_results l v : lev_done l v -> results_ok l v.
   Proof. intros [_ Hr]. unfold results_ok. split; [exact Hr|].
-    unfold res_ml, res_mean_level, res_cl, res_vl, res_var_level, res_kurtosis, dps, fines. rewrite Hr.
-    split; [reflexivity|]. split; [reflexivity|]. split; [reflexivity|]. intros Hpos.
+    unfold res_ml, res_mean_level, res_vl, res_var_level, res_kurtosis, dps, fines. rewrite Hr.
+    intros Hpos.
+    split; [reflexivity|]. split; [reflexivity|].
     set (R := samples_of l (lN v)).
     assert (HD : map (fun r : row => fst r - snd r) R <> []).
     { intro E. apply (f_equal (@length Q)) in E. rewrite map_length in E. unfold R in E. rewrite samples_of_length in E. simpl in E. lia. }
@@ -209,6 +211,62 @@ Section Inv.
   Proof. intros H. pose proof (rows_are_samples fuel L0 N0) as F.
     destruct H as [H|H]; rewrite H in F; apply (all_lev_impl lev_done); auto using done_results. Qed.
 
+  (* ---------------------------------------------------------------- sum_cost is accumulated from the passes *)
+  Definition pass_cost (ps : list (Q * nat)) : Q := Qsum (map (fun p => fst p * qnat (snd p)) ps).
+  Definition pass_count (ps : list (Q * nat)) : nat := fold_right (fun p a => (snd p + a)%nat) O ps.
+  (* sum_cost[l] = sum over the passes of one_simulation_cost * dNl, and N_l = sum over the passes of dNl *)
+  Definition cost_ok (v : lev) : Prop := lcost v == pass_cost (lpasses v) /\ lN v = pass_count (lpasses v).
+
+  Lemma Qsum_app a b : Qsum (a ++ b) == Qsum a + Qsum b.
+  Proof. induction a as [|x a IH]; simpl; [ring|]. rewrite IH. ring. Qed.
+  Lemma pass_count_app a b : pass_count (a ++ b) = (pass_count a + pass_count b)%nat.
+  Proof. induction a as [|x a IH]; simpl; [reflexivity|]. rewrite IH. lia. Qed.
+
+  Lemma run_level_cost l v : cost_ok v -> cost_ok (run_level sample cost df notional l v).
+  Proof. intros [Hc Hn]. unfold cost_ok, run_level; simpl. split.
+    - unfold pass_cost. rewrite map_app, Qsum_app. simpl. fold (pass_cost (lpasses v)). rewrite Hc. ring.
+    - rewrite pass_count_app. simpl. lia. Qed.
+
+  Lemma Forall_run_levels (P : lev -> Prop) : (forall l v, P v -> P (run_level sample cost df notional l v)) ->
+    forall vs l, Forall P vs -> Forall P (run_levels sample cost df notional l vs).
+  Proof. intros H vs. induction vs as [|v r IH]; simpl; intros l HF; constructor; inversion HF; subst; auto. Qed.
+  Lemma Forall_set_dN (P : lev -> Prop) :
+    (forall v d, P v -> P (mkLev (lN v) d (lcnt v) (lcost v) (lrows v) (lpasses v))) ->
+    forall Ns vs l, Forall P vs -> Forall P (set_dN Ns l vs).
+  Proof. intros H Ns vs. induction vs as [|v r IH]; simpl; intros l HF; constructor; inversion HF; subst; auto. Qed.
+
+  (* generic: a level property kept by a pass, by the re-allocation, by extend and true of a new level holds at every return *)
+  Theorem loop_Forall (P : lev -> Prop) :
+    (forall l v, P v -> P (run_level sample cost df notional l v)) ->
+    (forall v d, P v -> P (mkLev (lN v) d (lcnt v) (lcost v) (lrows v) (lpasses v))) ->
+    (forall v, P v -> P (ext_level v)) -> P (new_level 0) ->
+    forall fuel s, Forall P (levels s) ->
+      match loop0 fuel s with Converged s' | Fallthrough s' => Forall P (levels s') | OutOfFuel => True end.
+  Proof. intros H1 H2 H3 H4. induction fuel as [|f IH]; intros s Hs; simpl; [exact I|].
+    destruct (Nat.eqb (total_dN (levels s)) 0); [exact Hs|].
+    pose proof (Forall_set_dN P H2 (alloc (nalloc s)) _ 0%nat (Forall_run_levels P H1 _ 0%nat Hs)) as Hd1.
+    destruct (within_one_pct _).
+    - destruct (conv (nconv s) || _)%bool; [exact Hd1|].
+      apply IH. simpl. apply Forall_forall. intros x Hx. apply in_map_iff in Hx. destruct Hx as [y [<- Hy]]. apply H3.
+      revert y Hy. apply Forall_forall. apply Forall_set_dN; [exact H2|]. apply Forall_app. split; [exact Hd1|]. constructor; [exact H4|constructor].
+    - apply IH. simpl. apply Forall_forall. intros x Hx. apply in_map_iff in Hx. destruct Hx as [y [<- Hy]]. apply H3.
+      revert y Hy. apply Forall_forall. exact Hd1. Qed.
+
+  Theorem cost_from_passes fuel L0 N0 :
+    match price_run sample cost alloc conv garbage df notional level_max 0 fuel L0 N0 with
+    | Converged s | Fallthrough s =>
+        Forall (fun v => cost_ok v /\ ((0 < lN v)%nat -> res_cl v == pass_cost (lpasses v) / qnat (pass_count (lpasses v)))) (levels s)
+    | OutOfFuel => True
+    end.
+  Proof. pose proof (loop_Forall cost_ok run_level_cost) as H.
+    specialize (H (fun v d Hv => Hv) (fun v Hv => Hv)).
+    assert (H0 : cost_ok (new_level 0)) by (split; reflexivity).
+    specialize (H H0 fuel (init_state garbage L0 N0)).
+    assert (Hi : Forall cost_ok (levels (init_state garbage L0 N0))).
+    { unfold init_state; cbn [levels]. apply Forall_forall. intros v Hv. apply in_map_iff in Hv. destruct Hv as [l [<- _]]. split; reflexivity. }
+    specialize (H Hi). unfold price_run. destruct (loop0 fuel (init_state garbage L0 N0)); try exact I;
+      (eapply Forall_impl; [|exact H]; intros v [Hc Hn]; split; [split; assumption|]; intros _; unfold res_cl; rewrite Hc, Hn; reflexivity). Qed.
+
   (* ---------------------------------------------------------------- fixed-level variant *)
   Lemma ext_level_head_head l v : lev_head l v -> lev_head l (ext_level v).
   Proof. intros [Hc [B [Hr Hb]]]. unfold lev_head, ext_level; simpl. split; [exact Hc|]. exists B. split; [|exact Hb].
@@ -222,7 +280,7 @@ Section Inv.
     fixed_run sample cost garbage df notional L0 Lmax N = Some vs ->
     length vs = S Lmax /\ all_lev lev_done 0 vs /\ Forall (fun v => lN v = N) vs /\ mlmc_price vs == sum_level_means 0 vs.
   Proof. unfold fixed_run. destruct (Nat.ltb Lmax L0) eqn:E; [discriminate|]. apply Nat.ltb_ge in E.
-    set (ini := map (init_level garbage N) (seq 0 (S L0))). set (add := map (fun _ : nat => mkLev O N O 0 []) (seq (S L0) (Lmax - L0))).
+    set (ini := map (init_level garbage N) (seq 0 (S L0))). set (add := map (fun _ : nat => mkLev O N O 0 [] []) (seq (S L0) (Lmax - L0))).
     intros H. assert (Hv : vs = run_levels sample cost df notional 0 (map ext_level (ini ++ add))) by congruence. clear H. subst vs.
     assert (Hh : all_lev lev_head 0 (map ext_level (ini ++ add))).
     { rewrite map_app. apply all_lev_app. split.
@@ -258,3 +316,48 @@ Lemma no_phantom_after_repair :
   exists s v, w_run 0 = Converged s /\ nth_error (levels s) 3 = Some v /\
               lN v = 4%nat /\ lcnt v = 4%nat /\ map fst (lrows v) = [1; 2; 3; 4].
 Proof. vm_compute. eexists. eexists. repeat split. Qed.
+
+(* ------------------------------------------------------------------ several pricings on ONE engine *)
+Definition own_rows (offs : nat -> nat -> Q * Q) (e : nat) (p : mpricing) (o : outcome state) : Prop :=
+  match o with
+  | Converged s | Fallthrough s =>
+      all_lev (fun l v => lcnt v = lN v /\
+                 lrows v = map (fun i => mk_row (mp_df p) (mp_notional p) l (shift (mp_raw p l i) (offs e l))) (seq 0 (lN v)))
+              0 (levels s)
+  | OutOfFuel => True
+  end.
+Fixpoint seq_own (offs : nat -> nat -> Q * Q) (e : nat) (ps : list mpricing) (os : list (outcome state)) : Prop :=
+  match ps, os with
+  | [], [] => True
+  | p :: r, o :: t => own_rows offs e p o /\ seq_own offs (S e) r t
+  | _, _ => False
+  end.
+
+Lemma manager_used_reset e prev K l : manager_used (managers true e prev K) e l = (e, l).
+Proof. unfold manager_used, managers. cbn [app]. destruct (Nat.lt_ge_cases l (S K)) as [H|H].
+  - rewrite (nth_indep _ (e, l) ((fun l => (e, l)) 0%nat)) by (rewrite map_length, seq_length; exact H).
+    rewrite (map_nth (fun l => (e, l)) (seq 0 (S K)) 0%nat l). now rewrite seq_nth.
+  - apply nth_overflow. rewrite map_length, seq_length. exact H. Qed.
+
+(* repaired engine: whatever managers earlier pricings left behind, pricing number e holds, on every level l, exactly
+   its own samples seen through the manager (e, l) created for it *)
+Theorem engine_reuse offs : forall ps e prev, seq_own offs e ps (run_seq offs true e prev ps).
+Proof. induction ps as [|p r IH]; intros e prev; simpl; [exact I|]. split; [|apply IH].
+  set (pms := managers true e prev (mp_fuel p + mp_L0 p)).
+  pose proof (rows_are_samples (mp_sample offs pms e p) (mp_cost p) (mp_alloc p) (mp_conv p) (mp_garbage p)
+                (mp_df p) (mp_notional p) (mp_level_max p) (mp_fuel p) (mp_L0 p) (mp_N0 p)) as H.
+  unfold final_ok in H. unfold own_rows.
+  destruct (price_run _ _ _ _ _ _ _ _ _ _ _ _); try exact I;
+    (eapply all_lev_impl; [|exact H]; intros l v [Hc Hr]; split; [exact Hc|]; rewrite Hr; unfold samples_of;
+     apply map_ext; intros i; unfold mp_sample, pms; rewrite manager_used_reset; reflexivity). Qed.
+
+(* before the repair (list only appended to): the second pricing sees level 0 through the manager of the FIRST pricing *)
+Definition w_pricing : mpricing :=
+  mkMP w_sample (fun _ _ => 1) (tab_alloc [[2; 2]]%Z) (tab_conv [true]) const_garbage 1 1 3 10 1 2.
+Lemma stale_manager_before_repair :
+  exists o0 o1 s v, run_seq pm_offs false 0 [] [w_pricing; w_pricing] = [o0; o1] /\ o1 = Converged s /\
+    nth_error (levels s) 0 = Some v /\
+    map (fun r => Qred (fst r)) (lrows v) = [1; 2]       (* offset of manager (0,0): 0, instead of 1/2 for manager (1,0) *)
+    /\ ~ own_rows pm_offs 1 w_pricing o1.
+Proof. eexists. eexists. eexists. eexists. split; [vm_compute; reflexivity|]. split; [reflexivity|]. split; [reflexivity|].
+  split; [vm_compute; reflexivity|]. intros [[_ H] _]. vm_compute in H. discriminate H. Qed.
